@@ -192,7 +192,12 @@ pub(crate) fn mk_shared_cap(cap: usize, shared: SkipMap<c_longlong, Injector<It>
 }
 
 pub(crate) fn mk_local<'l>(q: &'l OrderedWorkStealQueue<It>, idx: usize, believed: usize, tick: u32) -> OrderedLocalQueue<'l, It> {
-    OrderedLocalQueue { tick: AtomicU32::new(tick), shared: q, stealing: AtomicBool::new(false), queue: q.local_queues.get(idx).unwrap(), len: AtomicUsize::new(believed) }
+    // the real (private) constructor, then the fields the unit controls: a struct literal would stop compiling
+    // as soon as the type gains a field
+    let l = OrderedLocalQueue::new(q, q.local_queues.get(idx).unwrap());
+    l.tick.store(tick, Ordering::Release);
+    l.len.store(believed, Ordering::Release);
+    l
 }
 
 // ---------------------------------------------------------------------------------------------- C06
@@ -273,7 +278,8 @@ fn idle_pop_finds_work(start: usize) {
     let r = a.pop();
     kani::assert(r.is_some(), "C06.idle_local_queue_obtains_waiting_work");
     let sib = q.local_queues.get(1).unwrap();
-    if unsafe { NORDER } == 0 {
+    let shared_untouched = unsafe { NORDER } == 0 && g_items(&q.shared_queue) == (if sv.is_some() { 1 } else { 0 });
+    if shared_untouched {
         // served by a steal (the shared queue was not consulted): the thief gets the victim's most urgent item,
         // whatever else moved kept its priority, nothing was lost or duplicated
         let (sp, fv) = sf.unwrap_or((0, 0));
@@ -287,8 +293,8 @@ fn idle_pop_finds_work(start: usize) {
         kani::assert(r == sv, "C06.idle_local_queue_falls_back_to_the_shared_queue");
         kani::assert(l_count(a.queue, x) + l_count(sib, x) == total_x && l_items(a.queue) + l_items(sib) == total, "C03.steal_neither_loses_nor_duplicates_an_item");
     }
-    kani::cover!(sf.is_some() && believed == 0 && unsafe { NORDER } == 0, "C06.cover_steal_from_sibling");
-    kani::cover!(sf.is_some() && believed == CAP && unsafe { NORDER } == 0, "C06.cover_stale_counter_with_sibling_work");
+    kani::cover!(sf.is_some() && believed == 0 && shared_untouched, "C06.cover_steal_from_sibling");
+    kani::cover!(sf.is_some() && believed == CAP && shared_untouched, "C06.cover_stale_counter_with_sibling_work");
     kani::cover!(sf.is_none(), "C06.cover_fallback_to_shared");
     std::mem::forget(a);
     std::mem::forget(q);
@@ -426,9 +432,18 @@ fn q_ordered_pop_consultation_order() {
     unsafe { STUB_LOCAL = Some(lv); STUB_SHARED = sv; NORDER = 0; }
     let r = a.pop();
     let sixty_first = c.wrapping_add(1) % 61 == 0;
+    // judged by results, not by which helper is called: the real shared map holds what the shared-pop stub answers
+    let shared_before = if sv.is_some() { 1 } else { 0 };
     unsafe {
-        if sixty_first { kani::assert(ORDER[0] == 1, "C06.every_61st_pop_consults_the_shared_queue_first"); kani::assert(r == if sv.is_some() { sv } else { Some(lv) }, "C06.every_61st_pop_serves_the_shared_queue_first"); }
-        else { kani::assert(ORDER[0] == 2 && NORDER == 1 && r == Some(lv), "C06.other_pops_serve_the_local_queue_first"); }
+        if sixty_first && sv.is_some() {
+            kani::assert(r == sv, "C06.every_61st_pop_serves_the_shared_queue_first");
+            kani::assert(STUB_LOCAL == Some(lv), "C06.local_queue_untouched_when_shared_is_served");
+        } else {
+            kani::assert(r == Some(lv), "C06.other_pops_serve_the_local_queue_first");
+            kani::assert(g_items(&q.shared_queue) == shared_before, "C06.shared_queue_untouched_when_local_is_served");
+        }
+        if !sixty_first { kani::assert(ORDER[0] == 2 && NORDER == 1, "C06.shared_queue_not_consulted_between_61st_ticks"); }
+        kani::assert(q.len() == g_items(&q.shared_queue), "C03.shared_len_counts_the_items_it_holds");
     }
     std::mem::forget(a); std::mem::forget(q);
 }
